@@ -25,9 +25,27 @@ class N(HasTraits):
     mapping = Dict(Str, Instance("N"))
     group = Set(Instance("N"))
     w_ = Int                      # wildcard: names w_... are resolved on first use
+    anybox = Instance(HasTraits)              # links that also admit objects WITHOUT the observed traits (hook-up fails)
+    anykids = List(Instance(HasTraits))
+    tkids = List(Instance("N"), tracked=True)  # matched by the metadata filter "+tracked"
+    tchild = Instance("N", tracked2=True)      # matched by "+tracked2"
 
     def __repr__(self):
         return "<%s>" % self.name
+
+
+class Alien(HasTraits):
+    """has no trait `value`: hooking it up under '...value' fails"""
+    name = Str("alien")
+
+
+SHARED = N(name="shared")
+N.add_class_trait("dchild", Any(SHARED))      # a CONSTANT default that is itself an observable object
+
+# per-run side tables (keyed by id(root)): boxes whose hook-up failed, objects detached on purpose that must stay silent
+FAILED = {}
+DETACHED = {}
+STASH = {}
 
 
 def mk_node_class(extra=None):
@@ -104,6 +122,59 @@ def apply_mutation(ex, step, root, pool, mut, fresh):
     elif mut == "map_same":          # re-assign the identical object under its key
         if "a" in root.mapping:
             root.mapping["a"] = root.mapping["a"]
+    elif mut == "anybox=good":
+        b = fresh()
+        b.anykids = [fresh()]
+        root.anybox = b
+    elif mut == "anybox=broken":     # the second item cannot be hooked up: the assignment raises half way through
+        b = fresh()
+        b.anykids = [fresh(), Alien()]
+        try:
+            root.anybox = b
+        except Exception:
+            FAILED.setdefault(id(root), []).append(b)
+    elif mut == "anybox=None":
+        root.anybox = None
+    elif mut == "box_append":
+        if root.anybox is not None:
+            root.anybox.anykids.append(fresh())
+    elif mut == "box_append_alien":
+        if root.anybox is not None:
+            try:
+                root.anybox.anykids.append(Alien())
+            except Exception:
+                FAILED.setdefault(id(root), []).append(root.anybox)
+    elif mut == "anykids_mixed":     # on the root itself
+        try:
+            root.anykids = [fresh(), Alien()]
+        except Exception:
+            FAILED.setdefault(id(root), []).append(root)
+    elif mut == "anykids_good":
+        root.anykids = [fresh()]
+    elif mut in ("tkids=equal", "children=equal"):      # a NEW container object that compares equal to the old one
+        attr = mut.split("=")[0]
+        old = getattr(root, attr)
+        setattr(root, attr, list(old))
+        STASH[id(root)] = old
+    elif mut in ("tkids_append", "children_append"):
+        getattr(root, mut.split("_")[0]).append(fresh())
+    elif mut == "stale_append":      # the container object that was replaced earlier is detached: so is what goes into it
+        old = STASH.get(id(root))
+        if old is not None:
+            x = fresh()
+            old.append(x)
+            DETACHED.setdefault(id(root), []).append(x)
+    elif mut == "tchild=":
+        root.tchild = fresh()
+    elif mut == "dchild=":
+        root.dchild = pool[ex.choice("pick%d" % step, len(pool))]
+    elif mut == "dchild=shared":
+        root.dchild = SHARED
+    elif mut == "del_dchild":
+        try:
+            del root.dchild          # back to the (constant, shared) default
+        except Exception:
+            pass
     else:
         raise AssertionError(mut)
 
@@ -127,6 +198,13 @@ def reachable(root, expr):
                 nxt.extend(o.mapping.values())
             elif st == "group":
                 nxt.extend(o.group)
+            elif st in ("anybox", "tchild", "dchild"):
+                v = getattr(o, st, None) if isinstance(o, N) else None
+                if v is not None:
+                    nxt.append(v)
+            elif st in ("anykids", "tkids"):
+                if isinstance(o, N):
+                    nxt.extend(getattr(o, st))
         cur = nxt
     out = []
     for o in cur:
@@ -139,9 +217,14 @@ def all_nodes(root, pool):
     seen = []
 
     def add(o):
-        if o is not None and not any(o is x for x in seen):
+        if o is not None and isinstance(o, N) and not any(o is x for x in seen):
             seen.append(o)
             add(o.child)
+            add(o.anybox)
+            add(o.tchild)
+            add(o.__dict__.get("dchild"))
+            for c in list(o.anykids) + list(o.tkids):
+                add(c)
             for c in o.children:
                 add(c)
             for c in o.mapping.values():
